@@ -1,4 +1,5 @@
 import TR.Lemmas.Bulkhead
+import TR.Lemmas.BulkheadMulti
 /-!
 # C01 — the bulkhead never lets more than `max_concurrent_calls` into the inner service
 
@@ -36,5 +37,57 @@ example :
     let s := run { max := 2, maxWait := some 10 }
       [.arrive 1 ⟨5, .ok⟩, .arrive 2 ⟨5, .never⟩, .arrive 3 ⟨0, .panic⟩, .poll 1, .poll 2, .poll 3]
     s.running = [1, 2] ∧ s.queue = [3] ∧ s.free = 0 := by decide
+
+/-! ## inner readiness failures, several services from one layer value, presets -/
+
+/-- **An inner readiness failure costs and frees nothing.** When the handle a caller wanted to call does not become
+ready (its inner service answers `poll_ready` with an error, or stays pending until the caller gives up), the request
+is answered and nothing else changes: the free permits, the queue, the permits handed over and the calls in flight
+are exactly what they were, and no inner call starts. (`bound` and `trace_bound` quantify over all operation lists,
+so they already cover histories with any number of such failures at any point — "inner failure" in the property's
+words includes failing readiness.) -/
+theorem readiness_failure_changes_nothing (cfg : Cfg) (s : State) (c : Nat) (kind : Option Nat) :
+    (stepS cfg s (.refuse c kind)).free = s.free ∧ (stepS cfg s (.refuse c kind)).queue = s.queue ∧
+    (stepS cfg s (.refuse c kind)).assigned = s.assigned ∧ (stepS cfg s (.refuse c kind)).running = s.running ∧
+    calls (stepS cfg s (.refuse c kind)).log = calls s.log := by
+  simp only [stepS]
+  split
+  · exact ⟨rfl, rfl, rfl, rfl, rfl⟩
+  · refine ⟨rfl, rfl, rfl, rfl, ?_⟩
+    cases kind <;> simp [refuseCall, emit, calls, isCall]
+
+/-- **Services built from one layer value are separate bulkheads, each with the full bound.** After any
+multi-service history (operations of any callers on any services, in any order), every service has at most `max`
+callers inside its inner service. -/
+theorem services_bound (cfg : Cfg) (mops : List (Nat × Op)) (j : Nat) :
+    ((runM cfg mops).insts j).running.length ≤ cfg.max := by
+  rw [runM_synced]; exact bound cfg _
+
+/-- … and the same in the observables: in every prefix of service `j`'s event log, calls started − calls ended ≤ `max`. -/
+theorem services_trace_bound (cfg : Cfg) (mops : List (Nat × Op)) (j n : Nat) :
+    calls (((runM cfg mops).insts j).log.take n) ≤ ended (((runM cfg mops).insts j).log.take n) + cfg.max := by
+  rw [runM_synced]; exact trace_bound cfg _ n
+
+/-- Each service conserves its own `max` permits. -/
+theorem services_permits_conserved (cfg : Cfg) (mops : List (Nat × Op)) (j : Nat) :
+    ((runM cfg mops).insts j).free + ((runM cfg mops).insts j).assigned.length
+      + ((runM cfg mops).insts j).running.length = cfg.max := by
+  rw [runM_synced]; exact permits_conserved cfg _
+
+/-- The presets are ordinary configurations (`small` 10, `medium` 50, `large` 200 slots, zero wait): the bound holds
+with the documented numbers, for every operation list. -/
+theorem preset_bounds (ops : List Op) :
+    (run presetSmall ops).running.length ≤ 10 ∧ (run presetMedium ops).running.length ≤ 50 ∧
+    (run presetLarge ops).running.length ≤ 200 :=
+  ⟨bound presetSmall ops, bound presetMedium ops, bound presetLarge ops⟩
+
+/-- Non-vacuity: two services from one layer (`max = 1`): service 0 is full and has a waiter, service 1 admits its own
+caller; a readiness failure on service 0 (caller 5) leaves both untouched. -/
+example :
+    let ms := runM { max := 1, maxWait := none }
+      [(0, .arrive 1 ⟨5, .never⟩), (0, .poll 1), (0, .arrive 2 ⟨0, .ok⟩), (0, .poll 2), (0, .refuse 5 (some 9)),
+       (1, .arrive 3 ⟨5, .never⟩), (1, .poll 3), (0, .poll 2)]
+    (ms.insts 0).running = [1] ∧ (ms.insts 0).queue = [2] ∧ (ms.insts 1).running = [3] ∧ (ms.insts 1).free = 0 ∧
+    (ms.insts 2).free = 1 := by decide
 
 end TR.Props.C01
